@@ -396,7 +396,7 @@ def run_modules(ctx, mods):
         # the CLI is run for every module (its verdict must agree); the driver only matters when accepted
         driver = build_driver(r.md, r.name, r.plan) if r.status == 0 else "int main() { return 0; }\n"
         jobs.append(cpp_build.CppJob(r.name, r.md["text"], driver, cxxflags=["-std=c++14", "-O0"]))
-    wd = os.path.join(ctx.bdir, "cpp")
+    wd = os.path.join(ctx.bdir, "cpp-%d" % os.getpid())   # per process: concurrent runs must not share directories
     t0 = time.time()
     results = cpp_build.run_jobs(wd, jobs, parallel=fw.NPROC, timeout=300)
     stage_t = {}
@@ -590,6 +590,15 @@ def corpus_modules():
 
 
 def run(ctx):
+    try:
+        _run_check(ctx)
+    finally:   # per-process scratch directories
+        import shutil as _sh
+        for _p in glob.glob(os.path.join(ctx.bdir, "*-%d*" % os.getpid())):
+            _sh.rmtree(_p, ignore_errors=True)
+
+
+def _run_check(ctx):
     ctx.rule = ("string functions: random SHOUTY/snake/arbitrary ASCII names through name_conversion.convert_case and random "
                 "enum_case attribute texts through _split_enum_case_values/_verify_enum_case_attribute; modules: 1-3 enums each "
                 "(names with digit/underscore shapes and camel-collision pairs, duplicate values, negatives, 2^63/2^64 edges and "
